@@ -187,6 +187,9 @@ pub struct Model<'a> {
     chain: Vec<String>,
     static_world: bool,
     pub cycle_refusals: usize,
+    /// decisions at ambiguous sites (true = the next read belongs to this site), see `expand`
+    pub choices: Vec<bool>,
+    pub ambiguous_sites: usize,
 }
 
 pub fn read_failure_kind(io_kind: &str) -> &'static str {
@@ -237,6 +240,8 @@ impl<'a> Model<'a> {
             chain: vec![],
             static_world,
             cycle_refusals: 0,
+            choices: vec![],
+            ambiguous_sites: 0,
         }
     }
 
@@ -556,8 +561,20 @@ impl<'a> Model<'a> {
             // would otherwise be mistaken for this one)
             let truth = self.ground_truth(&target);
             let recursive = truth.as_ref().is_some_and(|t| self.chain.contains(t));
-            let is_read_of_target =
-                !recursive && matches!(next, Some(c) if c.op == Op::Read && c.path == target);
+            let next_reads_target = matches!(next, Some(c) if c.op == Op::Read && c.path == target);
+            // A target that names nothing in the tree may be read (the read fails) or refused
+            // without a read; if the next call happens to be a read of that very path it may
+            // belong to this site or to a later include of the same path. The history alone
+            // cannot tell: the caller tries the alternatives (`choices`) and keeps an
+            // explanation that is consistent with everything observed.
+            let consume = if !recursive && truth.is_none() && next_reads_target {
+                self.ambiguous_sites += 1;
+                let c = self.choices.get(self.ambiguous_sites - 1).cloned().unwrap_or(true);
+                c
+            } else {
+                true
+            };
+            let is_read_of_target = !recursive && next_reads_target && consume;
             if !is_read_of_target {
                 // No read of the target. Legal in exactly two situations.
                 if recursive {
